@@ -70,7 +70,7 @@ _SITE_TYPE_EQUIP = ["equip1;", "equip1;equip2;", "equip2;", "equip2;equip3;", "e
 def file_content(inp, v):
     if inp == "site":
         return ("site_ID,lat,lon,site_type\n"
-                f"{1 + 10 * v},55.05,-119.99,site_type1\n{2 + 10 * v},55.05,-119.99,site_type1\n")
+                f"{1 + 10 * v},55.05,-119.99,site_type1\n")
     if inp == "siteType":
         return f"site_type,equipment\nsite_type1,{_SITE_TYPE_EQUIP[v]}\n"
     if inp == "equip":
@@ -92,7 +92,7 @@ _BASE = None
 
 def base_params():
     """virtual-world / program dictionaries as the real InputManager produces them from the
-    repository's granular_infrastructure simulation, shortened to a 40-day period and pointed at a
+    repository's granular_infrastructure simulation, shortened to a 25-day period, one site, and pointed at a
     repair-delay file"""
     global _BASE
     if _BASE is None:
@@ -102,8 +102,8 @@ def base_params():
         programs = params.pop(pc.Levels.PROGRAM)
         vw = params.pop(pc.Levels.VIRTUAL)
         vw[pc.Virtual_World_Params.START_DATE] = [2021, 1, 1]
-        vw[pc.Virtual_World_Params.END_DATE] = [2021, 2, 9]
-        vw[pc.Virtual_World_Params.N_SITES] = 2
+        vw[pc.Virtual_World_Params.END_DATE] = [2021, 1, 25]
+        vw[pc.Virtual_World_Params.N_SITES] = 1
         vw[pc.Virtual_World_Params.REPAIR][pc.Virtual_World_Params.REPAIR_DELAY][pc.Common_Params.FILE] = \
             FILE_INPUTS["repairDelay"]
         vw[pc.Virtual_World_Params.REPAIR][pc.Virtual_World_Params.REPAIR_DELAY][pc.Common_Params.VAL] = "d"
